@@ -6,6 +6,7 @@ reasoning over the stropping configuration of every built-in language.
 import ast
 import builtins
 import keyword
+import re
 
 try:
     import re._parser as sre_parse
@@ -308,7 +309,10 @@ def rule_identity(ctx, px):
             if isinstance(st, ast.Assign) and st.value in subs and isinstance(st.value.func.value, ast.Name) and st.value.func.value.id in elem \
                     and len(st.value.args) == 2 and len(st.targets) == 1 and ast.unparse(st.targets[0]) == ast.unparse(st.value.args[1]):
                 seq.append((src, lp))
-    ok = len(subs) == 1 and len(seq) == 1 and f"self.{RULES_ATTR}[" in seq[0][0]
+    def _rules_lookup(src_):
+        # self.<rules>[<type>]  or  self.<rules>.get(<type>, <empty>)  (no rules configured for the type: nothing to apply)
+        return f"self.{RULES_ATTR}[" in src_ or re.search(rf"self\.{RULES_ATTR}\.get\([^,]+, ?(\(\)|\[\]|tuple\(\)|list\(\))\)", src_) is not None
+    ok = len(subs) == 1 and len(seq) == 1 and _rules_lookup(seq[0][0])
     ctx.ob(R, e.module.rel, f"{e.short} :: every configured rule is applied in turn to the running result (feed-forward)", ok,
            "" if ok else f"the substitution is not `x = rule.sub(callback, x)` inside a loop over self.{RULES_ATTR}[<type>] "
            f"(loops found: {[s_ for s_, _ in seq]}): a rule no longer sees what an earlier rule produced, so e.g. the C++ double-underscore rules miss the "
